@@ -39,8 +39,10 @@ def replaceFirst (p : DNode → Bool) (f : DNode → DNode) : List DNode → Opt
       | some cs' => some (c :: cs')
       | none => none
 
-/-- kind of the last token below these nodes (`last_token()`) -/
-def lastLeafKind (kids : List DNode) : Option Kind := (leavesList kids).getLast?.map (·.1)
+/-- kind of `last_token()` below these nodes: rowan follows the LAST children only and returns
+    `None` when that chain ends in a node without children (`Node.lastTok`, Model/Tree.lean) — e.g.
+    the empty ERROR node the parser leaves behind a key at the end of the input -/
+def lastLeafKind (kids : List DNode) : Option Kind := (lastTok kids).map (·.1)
 
 /-- append a NEWLINE token inside the deepest last node (terminate the last line) -/
 def terminateLast : List DNode → List DNode
@@ -52,8 +54,10 @@ def terminateLast : List DNode → List DNode
   | [Node.tok k t] => [Node.tok k t, Node.tok .NEWLINE ['\n']]
   | c :: d :: cs => c :: terminateLast (d :: cs)
 
-/-- `terminate_last_line`: if the paragraph's last token is not a NEWLINE, append one to that
-    token's parent (the last ENTRY, or the PARAGRAPH itself for a trailing comment) -/
+/-- `terminate_last_line` (lossless.rs:631-646): if there is a `last_token()` and it is not a
+    NEWLINE, append one to that token's parent (the last ENTRY, or the PARAGRAPH itself for a
+    trailing comment); nothing happens when `last_token()` is `None` (no child, or the chain of last
+    children ends in an empty node) -/
 def terminateLastLine (cs : List DNode) : List DNode :=
   match lastLeafKind cs with
   | none => cs
